@@ -7,6 +7,24 @@ pub struct SearchTimer {
     start_time: Option<Instant>,
     time_limit: Option<Duration>,
     nodes_searched: u64,
+    /// Verification hook: deterministic deadlines and work caps (off in normal builds)
+    #[cfg(flounder_verif)]
+    pub verif: VerifTimer,
+}
+
+/// Verification hook state: a second, deterministic stop condition expressed in
+/// nodes or in deadline polls, and a hard cap that turns a runaway search into a panic
+#[cfg(flounder_verif)]
+#[derive(Debug, Clone, Default)]
+pub struct VerifTimer {
+    /// should_stop() answers true once this many nodes have been counted
+    pub node_limit: Option<u64>,
+    /// should_stop() answers true from its n-th call (1-based) after start() onwards
+    pub poll_limit: Option<u64>,
+    /// increment_nodes() panics once the node count exceeds this
+    pub hard_cap: Option<u64>,
+    /// number of should_stop() calls since start()
+    pub polls: std::cell::Cell<u64>,
 }
 
 impl SearchTimer {
@@ -16,6 +34,8 @@ impl SearchTimer {
             start_time: None,
             time_limit: None,
             nodes_searched: 0,
+            #[cfg(flounder_verif)]
+            verif: VerifTimer::default(),
         }
     }
 
@@ -27,6 +47,8 @@ impl SearchTimer {
         self.start_time = Some(Instant::now());
         self.time_limit = time_limit;
         self.nodes_searched = 0;
+        #[cfg(flounder_verif)]
+        self.verif.polls.set(0);
     }
 
     /// Resets the timer without changing the time limit
@@ -40,6 +62,12 @@ impl SearchTimer {
     #[inline]
     pub fn increment_nodes(&mut self) {
         self.nodes_searched += 1;
+        #[cfg(flounder_verif)]
+        if let Some(cap) = self.verif.hard_cap {
+            if self.nodes_searched > cap {
+                panic!("flounder_verif: hard node cap {} exceeded", cap);
+            }
+        }
     }
 
     /// Adds multiple nodes to the counter
@@ -57,6 +85,16 @@ impl SearchTimer {
     /// # Returns
     /// `true` if time limit exceeded, `false` otherwise
     pub fn should_stop(&self) -> bool {
+        #[cfg(flounder_verif)]
+        {
+            let polls = self.verif.polls.get() + 1;
+            self.verif.polls.set(polls);
+            if self.verif.node_limit.is_some_and(|l| self.nodes_searched >= l)
+                || self.verif.poll_limit.is_some_and(|l| polls >= l)
+            {
+                return true;
+            }
+        }
         if let (Some(start), Some(limit)) = (self.start_time, self.time_limit) {
             start.elapsed() >= limit
         } else {
